@@ -178,7 +178,13 @@ def handle : Handler := fun s =>
       let tags := [kind, s!"nodes{nNodes}", defPos] ++ (if flat then ["flat"] else []) ++ (if nonInt then ["non-integer"] else []) ++
         (if iIdent then ["avar-identity"] else ["avar-nontrivial"]) ++ (if !strict then ["dup-from"] else []) ++
         (if segTie then ["near-tie"] else []) ++
-        (if !wf && !oracleAll then [s!"obs-{oCls}"] else []) ++ (if !wf && oracleAll then ["obs-property-holds"] else [])
+        (if !wf then
+          (if !o.fvarOk then ["obs-fvar-bounds"] else []) ++ (if !o.required then ["obs-missing-required-entry"] else []) ++
+          (if !o.mono then ["obs-segmap-not-monotone"] else []) ++ (if !o.agree then ["obs-avar-disagrees"] else []) ++
+          (if !o.nodesAgree then ["obs-avar-disagrees-at-node"] else []) ++
+          (if !o.instOk then ["obs-instance-out-of-range"] else []) ++
+          (if oracleAll then ["obs-property-holds"] else [])
+         else [])
       let nt := wf && nNodes ≥ 3 && !iIdent
       let cls := if wf && !oracleAll then oCls else if !corr then corrCls else ""
       let detail :=
@@ -188,5 +194,125 @@ def handle : Handler := fun s =>
     | .ok _, other =>
       some { corr := some false, oracle := none, cls := "new-result", tags := [kind], detail := s!"model=ok impl={other}" }
   r.getD (badInput "c08: cannot parse case")
+
+/-! ## c08e2e: fvar/avar read back from fonts built by `fontc::generate_font` -/
+
+structure SrcAxis where
+  mappings : List Pt
+  nodes : List Pt
+  idx : Nat
+  mn : Rat
+  df : Rat
+  mx : Rat
+  probes : List Rat
+
+def parseSrcAxis (s : Sexp) : Option SrcAxis := do
+  some { mappings := ← (← s.field1? "mappings").mapM? parsePt, nodes := ← (← s.field1? "nodes").mapM? parsePt,
+         idx := ← (← s.field1? "default_idx").asNat?, mn := ← (← s.field1? "min").asRat?,
+         df := ← (← s.field1? "default").asRat?, mx := ← (← s.field1? "max").asRat?, probes := ← rats s "probes" }
+
+/-- the source's own user → design mapping: straight lines between adjacent examples (sorted, distinct users).
+    Written independently of `Plm.map`. -/
+def srcInterp : List Pt → Rat → Rat
+  | p :: q :: rest, u =>
+    if u ≤ q.1 then p.2 + (u - p.1) / (q.1 - p.1) * (q.2 - p.2) else srcInterp (q :: rest) u
+  | [p], _ => p.2
+  | [], u => u
+
+/-- largest slope of the exact map over the segments meeting `[lo, hi]` -/
+def slopeOver (lo hi : Rat) : List Pt → Rat
+  | p :: q :: rest =>
+    let tailS := slopeOver lo hi (q :: rest)
+    if q.1 < lo ∨ hi < p.1 ∨ q.1 ≤ p.1 then tailS else ratMax ((q.2 - p.2) / (q.1 - p.1)) tailS
+  | _ => 0
+
+/-- ufo2fontir/src/toir.rs:194-219: a `<map>` gives `CoordConverter::new`, no map gives `unmapped`. -/
+def SrcAxis.model (a : SrcAxis) : Option Axis :=
+  if a.mappings.isEmpty then some ⟨a.mn, a.df, a.mx, Conv.unmapped a.mn a.df a.mx⟩
+  else match Conv.new a.mappings a.idx with
+    | .ok c => some ⟨a.mn, a.df, a.mx, c⟩
+    | .error _ => none
+
+def handleE2E : Handler := fun s =>
+  let r : Option Verdict := do
+    let axes ← (← s.field1? "axes").mapM? parseSrcAxis
+    let insts ← (← s.field1? "instances").mapM? (fun l => l.mapM? Sexp.asRat?)
+    let impl := Sexp.list (← s.field? "impl")
+    let res ← (← impl.field1? "result").asAtom?
+    if res != "ok" then
+      -- every generated source is well-formed: a failed build is a correspondence failure, not a pass
+      some { corr := some false, oracle := none, cls := "build-failed", tags := [res], detail := toString (impl.field1? "msg") }
+    else
+    let fvarS ← impl.field1? "fvar"
+    let iFvar : List (Int × Int × Int) ← (match fvarS with
+      | .atom _ => some []
+      | _ => fvarS.mapM? fun a => match a with
+        | .list [_, x, y, z] => do some (← x.asInt?, ← y.asInt?, ← z.asInt?)
+        | _ => none)
+    let iInst : List (List Int) := ((impl.field1? "inst").bind (fun l => l.mapM? (fun c => c.mapM? Sexp.asInt?))).getD []
+    let avarS ← impl.field1? "avar"
+    let iAvar : Option (List (List (Int × Int))) ← (match avarS with
+      | .atom _ => some none
+      | _ => some <$> avarS.mapM? (fun m => m.mapM? parseIntPair))
+    let models ← axes.mapM SrcAxis.model
+    ------------------------------------------------------------ correspondence with the model
+    let mFvar := models.map fvarRecord
+    let mSegs := models.map segmentMap
+    let mAvar : Option (List (List (Int × Int))) := if mSegs.any (fun m => !isIdentityMap m) then some mSegs else none
+    let fvarCorr := mFvar == iFvar
+    let avarCorr := mAvar == iAvar
+    let mInst : List (List Int) := insts.map fun loc =>
+      (models.zip loc).map fun (ax, d) => fvarInstanceCoord ax (some (ax.conv.designToUserMap d))
+    -- instance coordinates: f64 design→user then 16.16; allow one unit on a near tie
+    let instCorr := mInst.length == iInst.length && (mInst.zip iInst).all fun (m, i) =>
+      m.length == i.length && (m.zip i).all fun (a, b) => (a - b).natAbs ≤ 1
+    let corr := fvarCorr && avarCorr && instCorr
+    let corrCls := if !fvarCorr then "fvar" else if !avarCorr then "avar" else if !instCorr then "instances" else ""
+    ------------------------------------------------------------ oracle (font tables + source only)
+    let segsOf (k : Nat) : List (Int × Int) := match iAvar with
+      | none => []
+      | some ms => ms.getD k []
+    let perAxis : List (Bool × Bool × Bool × Bool × Rat) := (axes.zip (iFvar.zip (List.range axes.length))).map fun (a, fv, k) =>
+      let (fMin, fDef, fMax) := fv
+      let seg := segsOf k
+      let segPts := bitsToPts seg
+      let fx (v : Rat) (b : Int) : Bool := ratAbs (fixed16Val b - v) ≤ 1 / 131072 && ((v * 65536).den != 1 || fixed16Val b == v)
+      let fvarOk := fx a.mn fMin && fx a.df fDef && fx a.mx fMax && fMin ≤ fDef && fDef ≤ fMax
+      let required := seg.isEmpty || (segPts.contains (-1, -1) && segPts.contains (0, 0) && segPts.contains (1, 1))
+      let mono := monotone segPts
+      let dmin := (a.nodes.head?.map (·.2)).getD 0
+      let dmax := (a.nodes.getLast?.map (·.2)).getD 0
+      let ddef := srcInterp a.nodes a.df
+      let exact : List Pt := a.nodes.map fun n => (defaultNormalize a.mn a.df a.mx n.1, designNormalize dmin ddef dmax n.2)
+      let errs := a.probes.map fun u =>
+        let want := designNormalize dmin ddef dmax (srcInterp a.nodes u)
+        let got := consumerNormalize (fMin, fDef, fMax) seg u
+        let x := defaultNormalize a.mn a.df a.mx u
+        let xq := f2dot14Val (f2dot14 (defaultNormalize (fixed16Val fMin) (fixed16Val fDef) (fixed16Val fMax) u))
+        let lo := ratMin x xq - eps
+        let hi := ratMax x xq + eps
+        let L := slopeOver lo hi exact
+        let bound := if seg.isEmpty then 2 * eps + ratAbs (xq - x) + tol else eps * (1 + L) + L * ratAbs (xq - x) + tol
+        (ratAbs (got - want), bound)
+      let agree := errs.all fun (e, b) => e ≤ b
+      let worst : Rat := errs.foldl (fun acc (e, _) => ratMax acc e) (0 : Rat)
+      (fvarOk, required, mono, agree, worst)
+    let axesCount := iFvar.length == axes.length
+    let fvarOk := axesCount && perAxis.all (·.1)
+    let required := perAxis.all (·.2.1)
+    let mono := perAxis.all (·.2.2.1)
+    let agree := perAxis.all (·.2.2.2.1)
+    let worst : Rat := perAxis.foldl (fun acc p => ratMax acc p.2.2.2.2) (0 : Rat)
+    let instOk := iInst.all fun cs => (cs.zip iFvar).all fun (c, (lo, _, hi)) => lo ≤ c && c ≤ hi
+    let oracle := fvarOk && required && mono && agree && instOk
+    let oCls := if !fvarOk then "fvar-bounds" else if !required then "missing-required-entry" else if !mono then "segmap-not-monotone"
+      else if !agree then "avar-disagrees" else if !instOk then "instance-out-of-range" else ""
+    let flat := axes.any fun a => (a.nodes.zip (a.nodes.drop 1)).any fun (p, q) => p.2 == q.2
+    let tags := [s!"axes{axes.length}", if iAvar.isSome then "avar-present" else "avar-absent", s!"instances{iInst.length}"] ++
+      (if flat then ["flat"] else []) ++ (if axes.any (fun a => a.mappings.isEmpty) then ["unmapped-axis"] else [])
+    some { corr := some corr, oracle := some oracle, nontrivial := iAvar.isSome,
+           cls := if !oracle then oCls else if !corr then corrCls else "", tags := tags,
+           detail := if !oracle then s!"worst_err={worst} avar={repr iAvar}" else if !corr then s!"model_fvar={mFvar} model_avar={repr mAvar} model_inst={mInst}" else "" }
+  r.getD (badInput "c08e2e: cannot parse case")
 
 end Fontc.Driver.C08
